@@ -56,7 +56,34 @@ def prepare_extra(w, s, objs, sd):
     mk("_gen", T(("CKA_CLASS", "CKO_SECRET_KEY"), ("CKA_KEY_TYPE", "CKK_GENERIC_SECRET"), ("CKA_VALUE", bytes((sd * 11 + i * 7 + 3) & 0xFF for i in range(20))),
                  ("CKA_DERIVE", True)))
 ATTRS = [K.CKA_LABEL, K.CKA_VALUE, K.CKA_CLASS, K.CKA_ID, K.CKA_PRIVATE, K.CKA_APPLICATION, K.CKA_KEY_TYPE, K.CKA_MODULUS, K.CKA_TOKEN,
-         K.CKA_SENSITIVE, K.CKA_EC_PARAMS]
+         K.CKA_SENSITIVE, K.CKA_EC_PARAMS, K.CKA_ISSUER, K.CKA_SERIAL_NUMBER]
+
+
+def well_formed(b):
+    """a complete object file by the format description: generation field + whole attribute records, no attribute type twice"""
+    from vlib.store import FormatError, decode_object
+    import struct
+    try:
+        pos, seen = 8, set()
+        gen, attrs = decode_object(b)
+        # decode_object keeps the last record of a type: count the records
+        n = 0
+        data = b
+        while pos < len(data):
+            t = struct.unpack(">Q", data[pos:pos + 8])[0]
+            k = struct.unpack(">Q", data[pos + 8:pos + 16])[0]
+            pos += 16
+            if k == 1:
+                pos += 1
+            elif k == 2:
+                pos += 8
+            else:
+                ln = struct.unpack(">Q", data[pos:pos + 8])[0]
+                pos += 8 + (ln * 8 if k == 5 else ln)
+            n += 1
+        return n == len(attrs)
+    except (FormatError, struct.error, IndexError, ValueError, KeyError):
+        return False
 
 
 def read_tree(root):
@@ -75,7 +102,7 @@ class C16(Check):
     variants = ["ossl-asan"]
     rule = ("A case = a generated scenario (two tokens; token objects incl. a private AES key, a 5-9 KB data object, a "
             "certificate; generated value sizes 0..9000 bytes) + one writing call out of 30 kinds (C_CreateObject small / large "
-            "/ RSA / private, C_SetAttributeValue on large / small / private objects, C_CopyObject, C_DestroyObject, C_Login "
+            "/ RSA / private, C_SetAttributeValue rewriting a multi-buffer attribute longer or shorter / a small one / one of a private object, C_CopyObject, C_DestroyObject, C_Login "
             "user / wrong PIN / SO (flag rewrites), C_SetPIN user / SO, C_InitPIN, C_InitToken fresh / re-init, C_GenerateKey AES / DES3 / generic, "
             "C_GenerateKeyPair EC / RSA / EdDSA / DSA / DH, C_UnwrapKey of a secret / an RSA private key, C_DeriveKey by encryption / DH / concatenation). EVERY crash point of that call is enumerated: an image of the token directory is taken before "
             "each write-class file-system operation (open/create, truncate, fwrite, flush, close, unlink, mkdir, rmdir) and "
@@ -163,7 +190,7 @@ class C16(Check):
         mk("A-private-aes", T(("CKA_CLASS", "CKO_SECRET_KEY"), ("CKA_KEY_TYPE", "CKK_AES"), ("CKA_VALUE", bytes((sd + i) & 0xFF for i in range(32))), ("CKA_TOKEN", True),
                             ("CKA_PRIVATE", True), ("CKA_SENSITIVE", False), ("CKA_EXTRACTABLE", True)))
         mk("B-big-data", T(("CKA_CLASS", "CKO_DATA"), ("CKA_TOKEN", True), ("CKA_PRIVATE", False), ("CKA_VALUE", big), ("CKA_APPLICATION", b"app")))
-        mk("C-cert", T(*base_template("cert_x509", sd)) + T(("CKA_TOKEN", True), ("CKA_PRIVATE", False)))
+        mk("C-cert", T(*base_template("cert_x509", sd)) + T(("CKA_TOKEN", True), ("CKA_PRIVATE", False), ("CKA_ISSUER", big[::-1])))
         for i in range(prog["extra_objs"]):
             mk("X-extra-%d" % i, T(("CKA_CLASS", "CKO_DATA"), ("CKA_TOKEN", True), ("CKA_PRIVATE", bool(i % 2)), ("CKA_VALUE", b"extra-%d" % i * 3)))
         call = prog["call"]
@@ -204,15 +231,17 @@ class C16(Check):
         ctx.label("calls_" + call)
         ctx.label("call_failed" if rv != 0 else "call_ok")
         inside = 0
+        trees = {i: read_tree(os.path.join(snapdir, str(i))) for i in images}
         for i in images:
             img = os.path.join(snapdir, str(i))
-            tree = read_tree(img)
+            tree = trees[i]
             if tree == old_tree or tree == new_tree:
                 ctx.label("images_equal_to_before_or_after")
             else:
                 inside += 1
                 ctx.label("images_inside_call")
-            self.judge_image(ctx, prog, i, img, tree, old_tree, new_tree, old_view, new_view, newpins, open(img + ".label").read().strip())
+            later = [trees[j] for j in images if j > i] + [new_tree]
+            self.judge_image(ctx, prog, i, img, tree, old_tree, new_tree, old_view, new_view, newpins, open(img + ".label").read().strip(), later=later)
             ctx.label("images_judged")
             ctx.steps += 1
         ctx.case(prog, inside > 0, [])
@@ -240,7 +269,9 @@ class C16(Check):
         if call == "create_private":
             return w.C_CreateObject(s=s, tpl=T(("CKA_CLASS", "CKO_DATA"), ("CKA_TOKEN", True), ("CKA_PRIVATE", True), ("CKA_LABEL", b"N-new"), ("CKA_VALUE", val)))["rv"]
         if call == "set_large":
-            return w.C_SetAttributeValue(s=s, o=objs["B-big-data"], tpl=T(("CKA_VALUE", val), ("CKA_APPLICATION", b"changed")))["rv"]
+            # (on this token a data object's CKA_VALUE is read-only; the multi-buffer attribute that can be rewritten - longer or shorter - is the
+            # certificate's CKA_ISSUER)
+            return w.C_SetAttributeValue(s=s, o=objs["C-cert"], tpl=T(("CKA_ISSUER", val), ("CKA_SERIAL_NUMBER", b"changed")))["rv"]
         if call == "set_small":
             return w.C_SetAttributeValue(s=s, o=objs["C-cert"], tpl=T(("CKA_ID", val[:30])))["rv"]
         if call == "set_private":
@@ -317,7 +348,7 @@ class C16(Check):
         raise KeyError(call)
 
     # ----------------------------------------------------------------------------------------------
-    def judge_image(self, ctx, prog, idx, imgdir, tree, old_tree, new_tree, old_view, new_view, pins, where):
+    def judge_image(self, ctx, prog, idx, imgdir, tree, old_tree, new_tree, old_view, new_view, pins, where, later=None):
         def V(msg):
             return Violation("%s, crash point %d (%s): %s" % (prog["call"], idx, where, msg), prog)
         # files in flight: content is neither the old nor the new one
@@ -332,6 +363,15 @@ class C16(Check):
         # a file "in flight" = its content in the image is neither what it was before the call nor what it is after it:
         # the call was in the middle of (one of its several) rewrites of that file.  The call writes only these files.
         prefix_state = {f: True for f in inflight}
+        # The registered findings (an object is built by several transactions, each a rewrite in place: truncate, then write) explain exactly
+        # two shapes of an in-flight file: a complete, well-formed intermediate version (some attributes not stored yet), or a PROPER PREFIX
+        # (empty included) of a version of that file that the call goes on to complete - apart from the 8-byte generation field, which each
+        # version counts up.  Anything else in flight (new content followed by a stale tail, a hole, mixed versions) is not that finding.
+        if later is not None:
+            for f, b in inflight.items():
+                if b is None:
+                    continue
+                prefix_state[f] = any(lt.get(f) is not None and len(lt[f]) > len(b) and lt[f][8:].startswith(b[8:]) for lt in later) or well_formed(b)
         sb = ctx.env.sandbox()
         shutil.rmtree(sb.tokendir)
         shutil.copytree(imgdir, sb.tokendir)
@@ -384,16 +424,29 @@ class C16(Check):
                 budget_missing = len(obj_inflight)
                 # the objects the call is entitled to write
                 targets = {"create_small": ["N-new"], "create_large": ["N-new"], "create_rsa": ["N-new"], "create_private": ["N-new"], "copy": ["N-new"],
-                           "genkey": ["N-new"], "genpair_ec": ["N-new", "N-newprv"], "set_large": ["B-big-data"], "set_small": ["C-cert"], "destroy": ["C-cert"],
+                           "genkey": ["N-new"], "genpair_ec": ["N-new", "N-newprv"], "set_large": ["C-cert"], "set_small": ["C-cert"], "destroy": ["C-cert"],
                            "set_private": ["A-private-aes"]}.get(prog["call"])
                 if prog["call"] in KEYPATH_CALLS:
                     targets = ["N-new", "N-newprv"]
                 if prog["call"] == "inittoken_reinit":
                     targets = list(oo)
                 targets = targets or []
+                # byte-string values some object has before or after the call, per attribute type
+                legit = {}
+                for view_ in (oo, no):
+                    for a_ in view_.values():
+                        for t_, v_ in a_.items():
+                            legit.setdefault(t_, set()).add(v_ if not isinstance(v_, list) else json.dumps(v_))
                 for name, attrs in got["objs"].items():
                     if attrs == oo.get(name) or attrs == no.get(name):
                         continue
+                    # whatever file is in flight: a byte string (>= 8 bytes) that is returned as a value must be a value that exists before or
+                    # after the call - a cut or mixed value is "a half-written object returned as valid with wrong attribute values", which
+                    # no registered finding covers (those yield MISSING attributes: empty, generation-only or attribute-boundary-cut files)
+                    for t_, v_ in attrs.items():
+                        if isinstance(v_, str) and len(v_) >= 16 and not v_.startswith(("ERR", "raw")) and int(t_) != K.CKA_LABEL and v_ not in legit.get(t_, ()):
+                            raise V("token %s: object %s is returned with a %s (%d bytes: %s..) that no object has before or after the call - a half-written value "
+                                    "passed off as valid (files in flight: %s)" % (lab, name, K.name("CKA", int(t_)), len(v_) // 2, v_[:32], sorted(inflight)))
                     budget -= 1
                     # (an object still carrying the label of its copy source - a duplicate name - is the copy in flight)
                     if not (name.startswith("#") or name.endswith("'") or name in targets):
